@@ -4,6 +4,10 @@
 //
 //	root <hex of n*32 bytes | ->                       real crypto.ComputeRoot
 //	sanity <blockhex> <pre> <size> <special> <hdrRoot> <tx>...   real BlockChain.CheckBlockSanity
+//	pool <goodBlockHex> <mutation> <pre> <size> <special> <hdrRoot> <tx>...
+//	    a real mempool.BlockPool on the fixture chain: the accepted block is pooled without confirm
+//	    (AppendDposBlock), then the same header with a mutated transaction list arrives together with
+//	    a signed confirm; the tokens after <mutation> describe the second block as in `sanity`.
 //	orphan <depth> <k> <mutation> <pre> <size> <special> <hdrRoot> <tx>...
 //	    a regnet node (harness/regnet) mines genesis → b1 … b<depth>; the LAST block, with its
 //	    transaction list mutated under the unchanged header, is delivered FIRST through the real
@@ -42,6 +46,7 @@ import (
 	"github.com/elastos/Elastos.ELA/crypto"
 	"github.com/elastos/Elastos.ELA/dpos/state"
 	"github.com/elastos/Elastos.ELA/elanet/pact"
+	"github.com/elastos/Elastos.ELA/mempool"
 )
 
 // the accepted two-transaction block used by test/unit/blockvalidator_test.go
@@ -64,6 +69,8 @@ const fixtureBlockHex = "000000007b3a8b2032301d0f9fafadee3bddba8d798a3ce1ed15740
 
 // parameters used by describe(): the fixture chain's, or the regnet node's inside an orphan op
 var descParams *config.Configuration
+
+var chainStore blockchain.IChainStore
 
 var (
 	chainOnce sync.Once
@@ -100,6 +107,7 @@ func getChain() *blockchain.BlockChain {
 		if err != nil {
 			panic("harness: chain store: " + err.Error())
 		}
+		chainStore = store
 		c, err := blockchain.New(store, &p, state.NewState(&p, nil, nil, nil, nil, nil, nil, nil, nil, nil, nil, nil), nil, ckp)
 		if err != nil {
 			panic("harness: chain: " + err.Error())
@@ -306,6 +314,92 @@ func bound(b *types.Block) bool {
 	return bytes.Equal(refRoot(ids), b.Header.MerkleRoot[:])
 }
 
+// poolMutate applies the mutation to the accepted block, under the unchanged header, and returns the
+// block as the wire decoder yields it
+func poolMutate(mut string, good *types.Block) *types.Block {
+	txs := append([]interfaces.Transaction{}, good.Transactions...)
+	n := len(txs)
+	bump := func(tx interfaces.Transaction) interfaces.Transaction {
+		t2 := cloneTx(tx)
+		t2.SetLockTime(t2.LockTime() + 7)
+		return cloneTx(t2)
+	}
+	switch mut {
+	case "none":
+	case "duptail":
+		txs = append(txs, txs[n-1])
+	case "duppair":
+		if n >= 2 {
+			txs = append(txs, txs[n-2], txs[n-1])
+		}
+	case "remove":
+		if n >= 2 {
+			txs = txs[:n-1]
+		}
+	case "swap":
+		if n >= 3 {
+			txs[n-1], txs[n-2] = txs[n-2], txs[n-1]
+		}
+	case "change":
+		txs[n-1] = bump(txs[n-1])
+	case "coinbase":
+		txs[0] = bump(txs[0])
+	case "cb2":
+		txs = append(txs, bump(txs[0]))
+	case "empty":
+		txs = nil
+	default:
+		panic("harness: unknown mutation " + mut)
+	}
+	return decodeBlock(blockHex(&types.Block{Header: good.Header, Transactions: txs}))
+}
+
+func runPool(goodHex, mut string) orphanRun {
+	c := getChain()
+	good := decodeBlock(goodHex)
+	second := poolMutate(mut, decodeBlock(goodHex))
+	desc := describe(c, second)
+	pool := mempool.NewBlockPool(params)
+	pool.Chain = c
+	pool.Store = chainStore
+	hash := good.Hash()
+	cls := func(err error) string {
+		if err == nil {
+			return "ok"
+		}
+		if strings.Contains(err.Error(), "duplicate block in pool") {
+			return "err:duplicate-in-pool"
+		}
+		return strings.ReplaceAll(classify(err), " ", ":")
+	}
+	deliver := func(d *types.DposBlock) (res string) {
+		defer func() {
+			if e := recover(); e != nil {
+				res = "panic"
+			}
+		}()
+		_, _, err := pool.AppendDposBlock(d)
+		return cls(err)
+	}
+	out := "s1=" + deliver(&types.DposBlock{Block: good})
+	priv, pub, err := crypto.GenerateKeyPair()
+	if err != nil {
+		panic("harness: " + err.Error())
+	}
+	sponsor, _ := pub.EncodePoint(true)
+	confirm := &payload.Confirm{Proposal: payload.DPOSProposal{Sponsor: sponsor, BlockHash: hash}}
+	confirm.Proposal.Sign, _ = crypto.Sign(priv, confirm.Proposal.Data())
+	out += " s2=" + deliver(&types.DposBlock{Block: second, HaveConfirm: true, Confirm: confirm})
+	ok := 1
+	if b, found := pool.GetBlock(hash); !found || !bound(b) {
+		ok = 0
+	}
+	if d, err := pool.GetDposBlockByHash(hash); err != nil || !bound(d.Block) {
+		ok = 0
+	}
+	return orphanRun{desc, fmt.Sprintf("%s bound=%d", out, ok)}
+}
+
 type orphanRun struct {
 	desc string // description of the delivered (possibly forged) block
 	out  string
@@ -500,6 +594,12 @@ func exec(t []string) string {
 			return "oracle-mismatch"
 		}
 		return classify(c.CheckBlockSanity(b))
+	case "pool":
+		run := runPool(t[1], t[2])
+		if run.desc != strings.Join(t[3:], " ") {
+			return "oracle-mismatch"
+		}
+		return run.out
 	case "duptx":
 		blk := &types.Block{}
 		for _, d := range t[1:] {
@@ -852,6 +952,15 @@ func gen(g *hx.Gen) {
 			// not a harness error: the correspondence and the oracle judge it
 			_ = out
 		}
+		if i%3 == 0 { // the block pool: pooled without confirm, then the same header with another list + confirm
+			gh := blockHex(blk)
+			for _, pm := range []string{"none", "duptail", "duppair", "remove", "swap", "change", "coinbase", "cb2", "empty"} {
+				if !g.Quick() || r.Chance(50) {
+					run := runPool(gh, pm)
+					g.Emit("pool %s %s %s", gh, pm, run.desc)
+				}
+			}
+		}
 		hdr := blk.Header
 		mut := func(txs []interfaces.Transaction) {
 			nb := &types.Block{Header: hdr, Transactions: txs}
@@ -1079,6 +1188,13 @@ func oracle(t []string, out string) *hx.Violation {
 		if out != want {
 			return &hx.Violation{Kind: "root-differs", Detail: "ComputeRoot differs from the reference definition " + want}
 		}
+	case "pool":
+		if strings.Contains(out, "panic") {
+			return &hx.Violation{Kind: "block-pool-panic", Detail: "BlockPool.AppendDposBlock panicked"}
+		}
+		if strings.Contains(out, "bound=0") {
+			return &hx.Violation{Kind: "pool-holds-unbound-block", Detail: "after the two-step delivery the block pool holds / serves under the block hash a transaction list that the header does not commit to"}
+		}
 	case "duptx":
 		// accepted ⇒ no key of any class occurs twice, at most one record-sponsor tx, every payload well typed
 		if out != "ok" {
@@ -1189,7 +1305,7 @@ func refRoot(hs []common.Uint256) []byte {
 }
 
 func nontrivial(t []string, out string) bool {
-	if t[0] == "orphan" || t[0] == "duptx" {
+	if t[0] == "orphan" || t[0] == "duptx" || t[0] == "pool" {
 		return true
 	}
 	if t[0] == "root" {
@@ -1216,6 +1332,9 @@ func bucket(t []string, out string) string {
 	}
 	if t[0] == "duptx" {
 		return "duptx/" + out
+	}
+	if t[0] == "pool" {
+		return "pool/" + t[2] + "/" + strings.Fields(out)[1]
 	}
 	return "sanity/" + out
 }
